@@ -175,12 +175,15 @@ Definition s3diffs (l : list s3case) := bad_idx s3diff l.
 Definition s3mons (l : list s3case) := mon_idx [s3mon_complete; s3mon_sound; s3mon_terminates] l.
 
 (* ===== post-processing of a fetched document ========================================= *)
-From ZenoV Require Import Ext.Post.
+From ZenoV Require Import Ext.Post Ext.PostPos.
 
 Record pcase := PC {
   pc_in : pin;
+  pc_pos : pos;                      (* where the document sits in its seed's tree: the edges from the seed down to it *)
+  pc_html : bool;                    (* oracle (mimetype): the sniffed MIME type contains "html" *)
   pc_kids : list bytes;              (* planted URLs expected among the children (assets) *)
   pc_outs : list bytes;              (* planted URLs expected among the outlinks while the hop limit allows *)
+  pc_depths : N * N;                 (* observed on the real item: GetDepth(), GetDepthWithoutRedirections() *)
   pc_children : list (bytes * N);    (* observed: children of the item (URL, hops) *)
   pc_outlinks : list (bytes * N) }.  (* observed: outlink items returned (URL, hops) *)
 
@@ -193,24 +196,37 @@ Definition same_set_p (l1 l2 : list (bytes * N)) : bool :=
   forallb (fun x => existsb (pair_eqb x) l2) l1 && forallb (fun x => existsb (pair_eqb x) l1) l2.
 
 (* the playlist parser attaches a rendition to a variant once per line read, so a master playlist
-   yields its rendition URIs several times: children of a playlist are compared as a set *)
+   yields its rendition URIs several times: children of a playlist are compared as a set.
+   The two depths of the real item are compared with the shared tree model's (Tree/Item.v through
+   PostPos.doc_dwr, encoded + 1) on the path the driver built. *)
 Definition pdiff (c : pcase) : bool :=
+  let ch := post_children_at (pc_pos c) (pc_html c) (pc_in c) in
   negb ((match p_doc (pc_in c) with
-         | PM3u8 _ => same_set_p (post_children (pc_in c)) (pc_children c)
-         | _ => same_mset_p (post_children (pc_in c)) (pc_children c)
+         | PM3u8 _ => same_set_p ch (pc_children c)
+         | _ => same_mset_p ch (pc_children c)
          end)
-        && same_mset_p (post_outlinks (pc_in c)) (pc_outlinks c)).
+        && same_mset_p (post_outlinks_at (pc_pos c) (pc_html c) (pc_in c)) (pc_outlinks c)
+        && N.eqb (fst (pc_depths c)) (N.of_nat (doc_depth (pc_pos c)))
+        && match doc_dwr (pc_pos c) with Some d => N.eqb (N.succ (snd (pc_depths c))) (N.of_nat d) | None => false end).
 
 Definition pmon_hops (c : pcase) : bool :=
   forallb (fun x => N.eqb (snd x) (p_hops (pc_in c))) (pc_children c)
   && forallb (fun x => N.eqb (snd x) (p_hops (pc_in c) + 1)) (pc_outlinks c).
 Definition pmon_guard (c : pcase) : bool :=
   if (p_hops (pc_in c) <? p_maxhops (pc_in c))%N then true else is_nil (pc_outlinks c).
+Definition planted_found (c : pcase) : bool :=
+  inclb (pc_kids c) (map fst (pc_children c))
+  && (if (p_hops (pc_in c) <? p_maxhops (pc_in c))%N then inclb (pc_outs c) (map fst (pc_outlinks c)) else true).
+(* the document as a freshly archived seed (C19_post_split) *)
 Definition pmon_planted (c : pcase) : bool :=
-  negb (p_body (pc_in c))
-  || (inclb (pc_kids c) (map fst (pc_children c))
-      && (if (p_hops (pc_in c) <? p_maxhops (pc_in c))%N then inclb (pc_outs c) (map fst (pc_outlinks c)) else true)).
+  negb (p_body (pc_in c)) || negb (is_nil (pc_pos c)) || planted_found c.
 (* the document reaches post-processing at all: the archiver kept its body *)
 Definition pmon_body (c : pcase) : bool := p_body (pc_in c).
+(* C19_post_at_all_found on the observed answers: at asset depth <= 2 - asset edges of the position counted,
+   redirection edges not - every planted link is extracted, wherever the redirections sit (the guard is a
+   function of the input position, no model step is called) *)
+Definition pmon_depth (c : pcase) : bool :=
+  negb (p_body (pc_in c)) || Nat.ltb 2 (nchild (pc_pos c)) || (Nat.eqb (nchild (pc_pos c)) 1 && pc_html c)
+  || planted_found c.
 Definition pdiffs (l : list pcase) := bad_idx pdiff l.
-Definition pmons (l : list pcase) := mon_idx [pmon_hops; pmon_guard; pmon_planted; pmon_body] l.
+Definition pmons (l : list pcase) := mon_idx [pmon_hops; pmon_guard; pmon_planted; pmon_body; pmon_depth] l.
